@@ -183,6 +183,10 @@ func (x *Exec) applyContract(c *Contract, fn *ssa.Function, sig *types.Signature
 	env := x.contractEnv(c, fn, sig, args, self, pre)
 	if c.IsExtern {
 		x.assumed[c.Target] = true
+		x.externSites++
+	}
+	if c.Attrs["trusted"] {
+		x.assumed["TRUSTED "+c.Target] = true
 	}
 	for _, cl := range c.clauses("requires") {
 		t := x.evalBool(env, cl.expr())
@@ -404,7 +408,9 @@ func (x *Exec) builtin(fr *Frame, b *ssa.Builtin, call *ssa.CallCommon, args []V
 				return &Scalar{types.Typ[types.Int], x.sc.def(app(SInt, "str.len", v.t), "len")}
 			}
 			if mt, ok := under(call.Args[0].Type()).(*types.Map); ok {
-				return &Scalar{types.Typ[types.Int], x.sc.def(x.mapLen(x.st, call.Args[0].Type(), mt, v.t), "len")}
+				l := x.sc.def(x.mapLen(x.st, call.Args[0].Type(), mt, v.t), "len")
+				x.assumeHere(and(le(tZero, l), le(l, bigLit("4611686018427387904"))))
+				return &Scalar{types.Typ[types.Int], l}
 			}
 		case *PtrV:
 			if at, ok := under(pointeeType(v)).(*types.Array); ok {
